@@ -57,7 +57,10 @@ class WalletWorld:
         self.focus = world.arm_params.get('focus', 'C08')
         self.tier = world.tier
         # ---- swarm configuration (block 0)
-        self.network = ch.weighted('network', [('bitcoin', 5), ('testnet', 2), ('litecoin', 2)])
+        nets = [('bitcoin', 5), ('testnet', 2), ('litecoin', 2)]
+        if self.focus == 'C09':
+            nets += [('bitcoinlib_test', 1), ('litecoin_testnet', 1)]
+        self.network = ch.weighted('network', nets)
         self.netobj = Network(self.network)
         self.coin = rcodec.NETWORKS[self.network]['coin_type']
         self.k = ch.weighted('k', [(2, 3), (1, 1), (3, 2)])
@@ -705,3 +708,61 @@ class WalletWorld:
 
     def finish(self):
         pass
+
+
+# ---------------------------------------------------------------------------------------------------------
+# reference derivation of wallet addresses (RefBIP32 + RefCodec; nothing from bitcoinlib)
+
+def ref_pub_to_address(pub, wt, network):
+    if wt == 'segwit':
+        return rcodec.p2wpkh_address(pub, network)
+    if wt == 'p2sh-segwit':
+        return rcodec.p2sh_p2wpkh_address(pub, network)
+    return rcodec.p2pkh_address(pub, network)
+
+
+def ref_path(wi, coin, change, index, account=0, wt=None):
+    """Documented path template for a single-signature HD wallet key (written out here, not read from the library)."""
+    wt = wt or wi.wt
+    return "m/%d'/%d'/%d'/%d/%d" % (PURPOSE[wt], coin, account, change, index)
+
+
+def ref_ms_paths(wi, coin, change, index, cosigner_index=0):
+    """(account path, relative path) for a multisig cosigner key."""
+    if wi.wt == 'legacy':
+        return "m/45'", "%d/%d/%d" % (cosigner_index, change, index)
+    return wi.ref['acc_path'], "%d/%d" % (change, index)
+
+
+_ADDR_CACHE = {}
+
+
+def ref_address(wi, network, coin, change, index, account=0, wt=None, cosigner_index=0):
+    """Address (and key material) the standards give for (change, index) of this wallet."""
+    wt = wt or wi.wt
+    key = (id(wi), change, index, account, wt, cosigner_index)
+    if key in _ADDR_CACHE:
+        return _ADDR_CACHE[key]
+    if wi.kind == 'single':
+        pub = rec.pub_from_priv(wi.ref['priv'], True)
+        res = {'address': ref_pub_to_address(pub, wt, network), 'pub': pub, 'priv': wi.ref['priv'], 'path': 'm'}
+    elif wi.kind == 'hd':
+        path = ref_path(wi, coin, change, index, account, wt)
+        node = wi.ref['master'].derive(path)
+        res = {'address': ref_pub_to_address(node.pub, wt, network), 'pub': node.pub, 'priv': node.priv, 'path': path}
+    else:
+        acc, rel = ref_ms_paths(wi, coin, change, index, cosigner_index)
+        pubs = []
+        for mk in wi.ref['masters']:
+            pubs.append(mk.derive(acc).derive(rel).pub)
+        pubs_sorted = sorted(pubs)
+        script = rscript.multisig_script(wi.m, pubs_sorted)
+        if wt == 'legacy':
+            addr = rcodec.p2sh_address(script, network)
+        elif wt == 'p2sh-segwit':
+            addr = rcodec.p2sh_p2wsh_address(script, network)
+        else:
+            addr = rcodec.p2wsh_address(script, network)
+        res = {'address': addr, 'script': script, 'pubs': pubs, 'path': acc + '/' + rel}
+    _ADDR_CACHE[key] = res
+    return res
